@@ -6,65 +6,89 @@
    with the model — lengths, length prefixes, the Update argument, the padding
    decision, the padding bytes out of the zeroed bufio buffer — and compares
    byte for byte. *)
+From Coq Require Export Uint63.
 From UV Require Export Base.Common Model.Padding Model.Marshal.
 
-(* Compact byte-string literals for the case files: [hx n x] is the n-byte
-   big-endian representation of x (the runner writes x as one hexadecimal
-   numeral; parsing a list of a thousand numerals per case is far slower). *)
+(* Compact byte-string literals for the case files.  Coq spends ~0.2 ms per
+   literal of a list whatever its type, so the runner packs 7 bytes into one
+   primitive-integer literal: [pk n ws] is the n-byte string whose successive
+   7-byte groups (the last one shorter) are the big-endian words ws. *)
 Fixpoint hx_go (k : nat) (x : N) (acc : bytes) : bytes :=
   match k with
   | O => acc
   | S k' => hx_go k' (N.shiftr x 8) (N.land x 255 :: acc)
   end.
 Definition hx (n : N) (x : N) : bytes := hx_go (N.to_nat n) x [].
+Definition w2n (w : Uint63.int) : N := Z.to_N (Uint63.to_Z w).
+Fixpoint pk (n : N) (ws : list Uint63.int) : bytes :=
+  match ws with
+  | [] => []
+  | w :: ws' => let k := N.min 7 n in hx k (w2n w) ++ pk (n - k) ws'
+  end.
 
+(* Every number in a case is a primitive integer (N numerals of more than a
+   few digits cost milliseconds each to parse). *)
 Inductive cpol :=
-| CPNone                       (* GetPaddingLen == nil *)
-| CPBoring                     (* BoringPaddingStyle *)
-| CPAlways (n : Z).            (* AlwaysPadToLen(n) *)
+| CPNone                                 (* GetPaddingLen == nil *)
+| CPBoring                               (* BoringPaddingStyle *)
+| CPAlways (neg : bool) (n : Uint63.int). (* AlwaysPadToLen(n), or AlwaysPadToLen(-n) when neg *)
 
+(* To keep the case files small the bytes are given ONCE: [data] is the
+   observed Hello.Raw, and the variable-size inputs of the model (random,
+   session id, the bytes each non-padding extension emitted) are cut out of it
+   at the offsets implied by the lengths the runner read from the UConn
+   (len(SessionId), ext.Len(), the padding extension's Len() after the call).
+   The model then recomputes the whole message from these pieces and must
+   return [data] itself: any wrong length prefix, padding decision or padding
+   byte in the implementation's output makes the comparison fail.  When the
+   implementation returned an error there is no Raw; the runner lays the pieces
+   out in the same arrangement (extensions read through their own Read). *)
 Inductive citem :=
-| CFixed (psk : bool) (body : bytes)           (* extension that emitted exactly [body] (may be empty) *)
-| CPad (pol : cpol) (plen : N) (will : bool).  (* padding extension: functor and state BEFORE the call *)
-
-Inductive obs := OBytes (b : bytes) | OErr.
+| CFixed (psk : bool) (n : Uint63.int)         (* extension with Len() = n; emitted bytes are in [data] *)
+| CPad (pol : cpol) (plen : Uint63.int) (will : bool)   (* padding extension: functor and state BEFORE the call, *)
+       (obslen : Uint63.int).                  (*   and its Len() AFTER the call *)
 
 Inductive case :=
-| CMarshal (vers : N) (random sid : bytes) (suites : list N) (comp : bytes)
-           (items : list citem) (o : obs)
-  (* spec obtained by FromRaw from a capture of [rawlen] bytes (record header
-     included); the items are the extensions of the re-applied spec with the
-     padding extension as FromRaw's parser left it; the model installs the policy *)
-| CFromRaw (rawlen : N) (vers : N) (random sid : bytes) (suites : list N) (comp : bytes)
-           (items : list citem) (o : obs).
+| CM (fromraw : option Uint63.int)
+                            (* Some n: spec obtained by FromRaw from a capture of n bytes (record header
+                               included); the model installs the policy on the first padding extension *)
+     (vers : Uint63.int) (sidlen : Uint63.int) (suites : list Uint63.int) (comp : list Uint63.int)
+     (items : list citem)
+     (ok : bool)            (* MarshalClientHello succeeded and [data] is Hello.Raw *)
+     (datalen : Uint63.int) (data : list Uint63.int).   (* [data] = pk datalen data *)
 
 Definition pol_of (p : cpol) : pad_policy :=
-  match p with CPNone => PolNone | CPBoring => PolBoring | CPAlways n => PolAlways n end.
+  match p with
+  | CPNone => PolNone
+  | CPBoring => PolBoring
+  | CPAlways neg n => PolAlways (if neg then (- Uint63.to_Z n)%Z else Uint63.to_Z n)
+  end.
 
-Definition aext_of (i : citem) : aext :=
-  match i with
-  | CFixed psk body => fixed_ext psk body
-  | CPad pol l w => APad (pol_of pol) {| p_len := l; p_will := w |}
+Fixpoint cut_items (items : list citem) (b : bytes) : list aext :=
+  match items with
+  | [] => []
+  | CFixed psk n :: r => fixed_ext psk (take (w2n n) b) :: cut_items r (drop (w2n n) b)
+  | CPad pol l w obs :: r =>
+      APad (pol_of pol) {| p_len := w2n l; p_will := w |} :: cut_items r (drop (w2n obs) b)
   end.
 
 (* spare capacity of the bytes.Buffer: Go guarantees at least MinRead *)
 Definition bbs512 : N -> N := fun _ => 512.
 
-Definition obs_matches (r : res bytes) (o : obs) : bool :=
-  match r, o with
-  | Ok b, OBytes b' => bytes_eqb b b'
-  | Err _, OErr => true
-  | _, _ => false
-  end.
-
-Definition mk_hdr vers random sid suites comp : hello_hdr :=
-  {| h_vers := vers; h_random := random; h_sid := sid; h_suites := suites; h_comp := comp |}.
-
 Definition check (c : case) : bool :=
   match c with
-  | CMarshal vers random sid suites comp items o =>
-      obs_matches (marshal_client_hello bbs512 (mk_hdr vers random sid suites comp) (map aext_of items)) o
-  | CFromRaw rawlen vers random sid suites comp items o =>
-      obs_matches (marshal_client_hello bbs512 (mk_hdr vers random sid suites comp)
-                     (from_raw_install rawlen (map aext_of items))) o
+  | CM fromraw vers sidlen suites comp items ok datalen dataw =>
+      let data := pk (w2n datalen) dataw in
+      let random := take 32 (drop 6 data) in
+      let sid := take (w2n sidlen) (drop 39 data) in
+      let h := {| h_vers := w2n vers; h_random := random; h_sid := sid;
+                  h_suites := map w2n suites; h_comp := map w2n comp |} in
+      let block := drop (4 + header_length h + 2) data in
+      let es := cut_items items block in
+      let es := match fromraw with Some n => from_raw_install (w2n n) es | None => es end in
+      match marshal_client_hello bbs512 h es with
+      | Ok b => ok && bytes_eqb b data
+      | Err _ => negb ok
+      | Panic _ => false
+      end
   end.
